@@ -16,6 +16,12 @@ ASSUMPTIONS = ["both devices start from equal states; masking: position field of
 def shards(tier):
     out = []
     geos = [("p2x2", "p2x2"), ("p2x2", "t3x2"), ("t3x2", "p2x2"), ("t3x2", "t3x2")] + ([("p3x2", "p8x2"), ("t8x1", "p8x2")] if tier == "thorough" else [])
+    # a trough and a plate of identical shape in one worklist
+    for sg, dg in [("t2x2", "p2x2"), ("p2x2", "t2x2")]:
+        out.append(dict(op="transfer", sgeo=sg, dgeo=dg, k=2, steps=1, partition_by="auto", washes=[1], ncand=2, comp=False, wl_max=common.BIG * 2))
+    out.append(dict(op="distribute", sgeo="t2x2", dgeo="p2x2", k=1, steps=1, comp=False))
+    # distribute into a trough, several virtual rows of one column and repeated wells included
+    out.append(dict(op="distribute", sgeo="t3x2", dgeo="t3x2", k=1, steps=1, comp=True, dsels=[[0, 1], [0, 1, 3], [0, 0], [2, 5]]))
     for sg, dg in geos:
         for op in ("aspirate", "dispense"):
             out.append(dict(op=op, sgeo=sg, dgeo=dg, k=2, steps=1, comp=True))
@@ -50,7 +56,7 @@ def witnesses(tier):
 
 
 def _run(ctx, p, dev, memo):
-    q = dict(p, dev=dev, uniq_dev="fluent")   # the same destination wells on both devices, pairwise distinct under either numbering
+    q = dict(p, dev=dev, uniq_dev="none")   # exactly the same destination wells on both devices (no device-specific de-duplication)
     W = wlops.build(ctx, q)
     try:
         wlops.run(ctx, W, memo)
